@@ -604,6 +604,14 @@ def run_ft(chk, tier):
     cases = exact + ties
     try:
         impl = common.run_impl(binary, cases, timeout=900, env=dict(os.environ, GOMAXPROCS="2"))
+        # a case that hangs poisons its process (leaked ticker): the cases after it are re-run in fresh processes
+        for _ in range(8):
+            todo = [k for k, i in enumerate(impl) if i == "SKIPPED-AFTER-HANG"]
+            if not todo:
+                break
+            again = common.run_impl(binary, [cases[k] for k in todo], timeout=900, env=dict(os.environ, GOMAXPROCS="2"))
+            for k, i in zip(todo, again):
+                impl[k] = i
     except common.ImplCrash as e:
         chk.infra_errors.append("faketime wheel stream crashed or hung: " + str(e)[-800:])
         return
@@ -612,6 +620,8 @@ def run_ft(chk, tier):
         stream = "ticker-faketime" if idx < len(exact) else "ticker-faketime-ties"
         chk.count_case(stream, c, True)
         chk.cov["disagreements_checked"] += 1
+        if i == "SKIPPED-AFTER-HANG":
+            continue
         if not i.startswith("fires="):
             chk.monitor_fail("ticker-hang", c, i, "a timer of the wheel running on its real ticker never became ready")
             continue
